@@ -1950,7 +1950,6 @@ package query
 //@ func (*Processor).Execute
 //@   property C01
 //@   abstract *
-//@   requires proc != nil && proc.Tx != nil
 //@   assert before call (*query.Processor).AutoCommit#1: [auto-commit-only-after-a-normal-end] err == nil && flow == Terminate && proc.Tx.AutoCommit
 //@   modifies *
 //@ func (*Processor).execute!loop
